@@ -22,6 +22,9 @@ type Reply struct {
 	TTL  uint8
 	Dest bool
 	Addr netip.Addr
+	// RTT, when > 0, is the round-trip time the driver reports for this reply instead of (now - send): what a driver
+	// reports is its own business (kernel timestamps, a second responder that is nearer), the engine must not look at it
+	RTT time.Duration
 	// Err, when set, is returned instead of a reply (fatal error injection)
 	Err error
 	// Bad makes ReceiveProbe return a retryable BadPacketError / no-match instead of a reply
@@ -169,6 +172,9 @@ func (d *Driver) ReceiveProbe(timeout time.Duration) (*common.ProbeResponse, err
 			rtt := time.Duration(0)
 			if s, ok := d.sends[r.TTL]; ok {
 				rtt = now.Sub(s)
+			}
+			if r.RTT > 0 {
+				rtt = r.RTT
 			}
 			d.Events = append(d.Events, Event{Kind: "reply", At: at, TTL: r.TTL, Dest: r.Dest, Addr: r.Addr, RTT: rtt})
 			d.mu.Unlock()
